@@ -3,7 +3,7 @@
 # copy (tools/mutcheck.sh, /repo stays untouched) and writes demos_results.tsv (exit 1 = detected)
 tier=${1:-quick}
 cd /verif
-declare -A PROP=( [h_blackboard]=C12 [h_container]=C10 [h_event]=C05 [h_idx]=C09 [h_spsc]=C03 [h_alloc]=C15 [h_containers]=C16
+declare -A PROP=( [h_limits]=C08 [h_connseq]=C13 [ptx]=C06 [h_blackboard]=C12 [h_container]=C10 [h_event]=C05 [h_idx]=C09 [h_spsc]=C03 [h_alloc]=C15 [h_containers]=C16
  [h_ffi]=C18 [h_lifecycle]=C17 [h_names]=C19 [h_reloc]=C14 [h_reqres]=C11 [h_waitset]=C20 )
 out=demos_results.tsv
 echo -e "property\tharness\tpatch\ttier\tresult\tseconds\tfirst violation" > $out
